@@ -352,6 +352,29 @@ def run(res, tier, seed, shard, nshards):
                     if check_returned([last], [set(range(t0, t1 + 1)) if t1 - t0 < 5_000_000 else {to_us(last.time)}], "stamped point", ctx) is not None:
                         if not (t0 <= to_us(last.time) <= t1):
                             bad("stamp-outside-call-window", dict(ctx, t0=t0, t1=t1, observed=to_us(last.time)))
+                    # ... also when the time-less point is a copy made some time before the insert (template cloned per
+                    # sample): a copy of a point without a time has no time either
+                    if b % 5 == 0:
+                        import copy as _copy
+                        import pickle as _pickle
+
+                        template = Point()
+                        template.tags = {"i": "copy"}
+                        clones = [("deepcopy", _copy.deepcopy(template)), ("copy", _copy.copy(template)), ("pickle", _pickle.loads(_pickle.dumps(template)))]
+                        time.sleep(0.02)  # the copies are older than the insert window
+                        for how, clone in clones:
+                            t0 = to_us(datetime.now(timezone.utc))
+                            try:
+                                db.insert(clone)
+                            except Exception as e:  # noqa: BLE001
+                                bad("api-raises", dict(ctx, exc=f"insert of a {how} of a time-less Point: {type(e).__name__}: {e}"), rep)
+                                break
+                            t1 = to_us(datetime.now(timezone.utc))
+                            res.count("stamped_inserts_of_copies")
+                            got_us = to_us(db.all(sorted=False)[-1].time)
+                            if not (t0 <= got_us <= t1):
+                                bad("stamp-outside-call-window", dict(ctx, copied_by=how, t0=t0, t1=t1, observed=got_us, note="a copy of a time-less point made 20 ms before the insert"))
+                                break
                     if b < 2 and shard < 4:
                         res.sample({"zone": zone, "storage": storage, "inserted": ctx["inserted"][:4]})
             except contracts.ContractBroken as e:
@@ -386,6 +409,7 @@ def finalize(res, tier):
     res.require("windows.index")
     res.require("time_given_by_assignment")
     res.require("sorted_checks_after_time_updates")
+    res.require("stamped_inserts_of_copies")
     res.require("windows.scan")
     res.require("presented.naive_in_repeated_hour")
     res.require("presented.naive_in_repeated_hour_second_occurrence")
